@@ -90,7 +90,7 @@ Print Assumptions C14_source_reads_positionally.
 (* ---- the receive buffer as memory (Recv/Views.v): Unpack does not copy, what is handed on keeps slices into
    the receive buffer. For any reads, deliveries and reallocations no byte that arrives later overwrites a
    delivered message; compacting inside the buffer (seeded changes C09c, C13a, C14a) is refuted; and in the
-   CURRENT source every copy in a receive loop goes into a freshly allocated buffer ---- *)
+   CURRENT source every copy in a receive loop goes into a buffer made in the statement before, and the buffer variable is only advanced over itself or replaced by such a buffer ---- *)
 Theorem C14_delivered_messages_never_overwritten : forall ls c s,
   Views.run false (Views.init c) ls = Some s -> Views.clobbered s = false.
 Proof. exact Views.delivered_messages_never_overwritten. Qed.
